@@ -1159,3 +1159,40 @@ func ruleRevertRestore(rule string) ruleFn {
 		}
 	}
 }
+
+// ---------------------------------------------------------------------------
+// C16-STOREDSIZE: the persisted size wins over the size a caller brings along
+// ---------------------------------------------------------------------------
+
+func ruleStoredSize(rule string) ruleFn {
+	return func(c *Ctx) {
+		c.Doc(rule, "replica.construct seeds info.Size / info.SectorSize from its parameters only before readMetadata: once volume.meta was read, what it says stays (the replica process is started with the size the volume was provisioned with, which is stale after a grow); replica.Server.Create builds a replica only in state 'initial' - an existing volume is never loaded with the start-up size")
+		if fn := c.Anchor(rule, "replica.construct"); fn != nil {
+			rm := CallsTo(fn, fRep+"readMetadata")
+			if len(rm) != 1 {
+				c.Undecided(rule, FnName(fn)+" | reads volume.meta once", c.P.Pos(fn.Pos()), fmt.Sprintf("%d readMetadata calls", len(rm)))
+			} else {
+				n := 0
+				for _, f := range []string{"Size", "SectorSize"} {
+					for _, st := range StoresTo(fn, "Info", f) {
+						n++
+						key := fmt.Sprintf("%s | info.%s from the parameters only before volume.meta is read", FnName(fn), f)
+						if len(Query{Fn: fn, Start: rm[0], IsSite: func(in ssa.Instruction) bool { return in == st }}.Run()) > 0 {
+							c.Bad(rule, key, c.P.InstrPos(st), "info."+f+" is assigned after readMetadata: the caller's value overrides the persisted one", nil)
+						} else {
+							c.OK(rule, key, c.P.InstrPos(st), "store precedes readMetadata", true)
+						}
+					}
+				}
+				if n == 0 {
+					c.Undecided(rule, FnName(fn)+" | seeds the geometry", c.P.Pos(fn.Pos()), "no store to info.Size found")
+				}
+			}
+		}
+		if fn := c.Anchor(rule, fSrv+"Create"); fn != nil {
+			c.Guard(rule, fn, CallsTo(fn, "replica.New"), "build a replica with the start-up size", nil,
+				atom("no volume yet (state initial)", `+"initial" -`+fSrv+`Status($0)#0 ==0`))
+		}
+		c.Floor(rule, 3)
+	}
+}
